@@ -64,6 +64,29 @@ CHECKS.append(_check("C05", "streams", "exploration",
            "deterministic simulation: interleaving of two random-stream clients, solo-run equivalence and stream-state digests",
            "DESIGN.md 3.6"))
 
+CHECKS.append(_check("C11", "objhist", "exploration",
+           "Objects that share structure (a joint, its component densities, its forward models and everything derived from them by "
+           "the library's shallow copies) are driven through seeded interleavings of condition / evaluate / gradient / sample / "
+           "to_likelihood / stacked view / model application / sampler runs on copies / 200-2000 re-conditionings, with hyper-"
+           "parameter callables that raise or return NaN at the k-th call. After every operation the behavioural signature of every "
+           "live object (names, conditioning variables, dim, logd, gradient, a draw under a private generator, depth-1 conditioning) "
+           "must equal that of its twin rebuilt from the recipe and never touched by the history.",
+           "Trusted: the constructors used to rebuild the twin. A behavioural signature is finite: influence that none of its entries "
+           "observes is not seen.",
+           "deterministic simulation: seeded operation/fault histories over aliased objects, twin-object behavioural-signature oracle",
+           "DESIGN.md 3.5"))
+CHECKS.append(_check("C01", "objhist", "exploration",
+           "On the same histories: every object reached from a joint by any order / grouping of conditioning calls (keyword or "
+           "positional, single or several variables, every reduction branch: joint, Posterior, Distribution, Likelihood, "
+           "MultipleLikelihoodPosterior, fully evaluated) must evaluate at the remaining variables to the pristine twin joint's "
+           "log-density at the complete assignment; the stacked view must agree; evaluations with missing, unknown or doubly "
+           "specified variables must raise (accepted-invalid); conditioning on a valid free variable must yield an object "
+           "(refused-valid). Weakest fit of the claimed set: its histories carry no clock or randomness of their own - the simulator "
+           "contributes seeded sequence generation, the twin and the fault dimension.",
+           "Trusted: JointDistribution.logd of the pristine twin as reference value (sum of its densities' log-densities).",
+           "deterministic simulation: seeded conditioning histories with callable faults, twin-joint reference value",
+           "DESIGN.md 3.5"))
+
 ENGINES = [
     {"name": "chain", "path": "engines/chain.py", "serves_properties": ["C14"],
      "kind_free_text": "seeded simulator of sampler runs: owns the random tape, the file system, the callback and the target callables; injects splits, checkpoints, crashes, restarts, I/O errors"},
@@ -71,6 +94,8 @@ ENGINES = [
      "kind_free_text": "Gibbs orchestrators with real and scripted block samplers; reference model of current block values; tape rewind and stand-alone replay"},
     {"name": "streams", "path": "engines/streams.py", "serves_properties": ["C05"],
      "kind_free_text": "two random-stream clients (own generator vs global stream) interleaved by the scheduler; solo-run equivalence"},
+    {"name": "objhist", "path": "engines/objhist.py", "serves_properties": ["C11", "C01"],
+     "kind_free_text": "interleaved operations on objects sharing structure; twin rebuilt from recipe; hyper-parameter callable faults"},
     {"name": "mhkernel", "path": "engines/mhkernel.py", "serves_properties": ["C02"],
      "kind_free_text": "adversarial scheduler of the accept-site uniform with a reference MH model per proposal family; NaN/-inf fault injection at proposals"},
 ]
